@@ -173,7 +173,7 @@ func C12(r *drv.Run) {
 		nrand = 600000
 	}
 	nl := len(c11Leaves())
-	r.Rule = fmt.Sprintf("exhaustive: all %d expressions of depth <= 1 (3 unary x %d leaves + 13 binary x %d x %d leaves, well and ill typed)", 3*nl+13*nl*nl, nl, nl, nl) + " in six statement contexts (transform return, predicate return, if condition, set, debug, predicate return under a pattern whose capture is named after a built-in or a variable of the code); all statement skeletons of nesting depth <= 3 built from loop / if / if-else / ill-typed if around break, continue, return string|number|bool, debug, set, including a statement placed after a nested loop or if (compile only); seeded random statement lists (set, if/else, loop with break/continue, return, debug) over random expression trees of depth <= 2, in predicate and transform context, every variable initialised once with the type its name stands for; pairs of functions in one source where the second reads names only the first assigned (no checker state may leak from one function into the next). Oracle: type checker transcribed from the documented tables decides accept/reject; accepted single-typed terminating programs are run and must not raise an evaluator panic. Distinct by source text; non-trivial = verdicts agreed on a distinct program (both accepted and rejected programs are required)."
+	r.Rule = fmt.Sprintf("exhaustive: all %d expressions of depth <= 1 (3 unary x %d leaves + 13 binary x %d x %d leaves, well and ill typed)", 3*nl+13*nl*nl, nl, nl, nl) + " in six statement contexts (transform return, predicate return, if condition, set, debug, predicate return under a pattern whose capture is named after a built-in or a variable of the code); all statement skeletons of nesting depth <= 3 built from loop / if / if-else / ill-typed if around break, continue, return string|number|bool, debug, set, including a statement placed after a nested loop or if (compile only); seeded random statement lists (set, if/else, loop with break/continue, return, debug) over random expression trees of depth <= 2, in predicate and transform context, every variable initialised once with the type its name stands for; pairs of functions in one source where the second reads names only the first assigned (no checker state may leak from one function into the next); and, run: two transforms in ONE replacement where the first assigns a name a string / number / boolean and the second applies every operator that is well typed for an unassigned (string) name to it - each function is typed on its own, so it must also run on its own. Oracle: type checker transcribed from the documented tables decides accept/reject; accepted single-typed terminating programs are run and must not raise an evaluator panic. Distinct by source text; non-trivial = verdicts agreed on a distinct program (both accepted and rejected programs are required)."
 	r.Assumptions = []string{
 		"typing of variables: latest assignment in program order, unassigned names are strings (what the documentation's inference amounts to for single-typed variables)",
 		"integer division by zero at run time is not an undefined *typing* operation (known finding K1 under C09) and is ignored here",
@@ -331,9 +331,99 @@ func C12(r *drv.Run) {
 			}
 		}}
 	})
+	c12Isolation(r)
 	if r.NViolations() == 0 {
+		if r.Counter("isolation_programs_run") == 0 {
+			r.Inconclusive("coverage floor: no two-transform replacement was run")
+		}
 		if r.Counter("accepted") == 0 || r.Counter("rejected") == 0 || r.Counter("accepted_programs_run") == 0 {
 			r.Inconclusive(fmt.Sprintf("coverage floor: accepted=%d rejected=%d run=%d", r.Counter("accepted"), r.Counter("rejected"), r.Counter("accepted_programs_run")))
 		}
 	}
+}
+
+// c12Isolation: `replace ... with fa fb`. fa assigns v9 (string, number or boolean); fb never assigns it, so for the
+// checker v9 is a string there and every expression accepted under that reading must run - and evaluate - under
+// that reading, whatever fa did for the same match.
+func c12Isolation(r *drv.Run) {
+	v := proc.EVar{Name: "v9"}
+	small := []proc.Expr{proc.EStr{V: "x"}, proc.EStr{V: "3"}, proc.ENum{V: 2}, proc.EBool{V: true}, v}
+	var exprs []proc.Expr
+	for _, op := range unOps {
+		exprs = append(exprs, proc.EUn{Op: op, X: v})
+	}
+	for _, op := range binOps {
+		for _, o := range small {
+			exprs = append(exprs, proc.EBin{Op: op, L: v, R: o}, proc.EBin{Op: op, L: o, R: v})
+		}
+	}
+	assigned := []proc.Expr{proc.EStr{V: "abc"}, proc.ENum{V: 7}, proc.EBool{V: true}, proc.EBool{V: false}, proc.ENum{V: 0}}
+	tenv := c12TypeEnv()
+	type cse struct {
+		src  string
+		want string
+	}
+	var cases []cse
+	for _, a := range assigned {
+		for _, e := range exprs {
+			t := proc.TypeOf(e, tenv)
+			if t == proc.TErr {
+				continue
+			}
+			val, ok := proc.Eval(e, proc.Env{"match": proc.Str("a"), "matchLength": proc.Num(1)})
+			if !ok {
+				continue // division by zero and the like
+			}
+			es := proc.Render(e, false)
+			body := "return " + es
+			want := val.AsString()
+			if t == proc.TBool {
+				body = "if " + es + " then return 'T' else return 'F' end"
+				want = map[bool]string{true: "T", false: "F"}[val.B]
+			}
+			src := "set fa to transform set v9 to " + proc.Render(a, false) + " return '<' end\nset fb to transform " + body + " end\nreplace all 'a' with fa fb '>'"
+			cases = append(cases, cse{src, "<" + want + ">"})
+		}
+	}
+	r.Exec(len(cases), drv.ExecOpts{Batch: 200}, func(i int) *drv.Item {
+		cs := cases[i]
+		c := wire.Case{Op: "run", Src: []byte(cs.src), Texts: [][]byte{[]byte("a-a")}, StepBudget: 100000}
+		return &drv.Item{Case: c, Check: func(res *wire.Result) {
+			if crashOrGuard(r, res, &c, cs.src, false) {
+				return
+			}
+			cr := res.Compile
+			r.Eval(1)
+			if cr == nil || cr.Panic != nil || !cr.OK {
+				msg := ""
+				if cr != nil {
+					msg = cr.Err
+				}
+				r.Violate(&drv.Violation{Sig: "rejected-well-typed:two-transforms-one-replacement", Src: cs.src, Err: msg, Case: &c})
+				return
+			}
+			if len(res.Runs) < 1 {
+				return
+			}
+			run := &res.Runs[0]
+			if run.Panic != nil {
+				r.Violate(&drv.Violation{Sig: "accepted-code-panics:" + run.Panic.Frame, Panic: run.Panic.Msg, Frame: run.Panic.Frame, Src: cs.src, Text: "a-a", Case: &c})
+				return
+			}
+			if run.Budget != "" {
+				return
+			}
+			for _, m := range run.Matches {
+				if string(m.Repl) != cs.want {
+					r.Violate(&drv.Violation{Sig: "transform-evaluated-in-a-foreign-environment", Src: cs.src, Text: "a-a", Case: &c,
+						Detail: map[string]any{"expected_replacement": cs.want, "observed": string(m.Repl)}})
+					return
+				}
+			}
+			if len(run.Matches) == 2 {
+				r.Count("isolation_programs_run", 1)
+				r.Nontrivial(cs.src)
+			}
+		}}
+	})
 }
